@@ -43,20 +43,22 @@ def _prep(name):
 
 def _data(t):
     if t.get('synth') is not None:
-        return elfbuild.build(substream(t['synth'], 'image'))[0]
+        f = elfbuild.build_dynamic if t.get('synthkind') == 'dyn' else elfbuild.build
+        return f(substream(t['synth'], 'image'))[0]
     return env.corpus_bytes(t['file'])
 
 
 def _prep_synth(task):
     seed, k = task
     sd = h64(seed, 'C03-synth', k)
-    data, desc = elfbuild.build(substream(sd, 'image'))
+    sk = 'dyn' if k % 3 == 2 else 'hash'       # every third image is a complete dynamic image (reachable through PT_DYNAMIC too)
+    data, desc = (elfbuild.build_dynamic if sk == 'dyn' else elfbuild.build)(substream(sd, 'image'))
     raw = elfraw.Raw(data)
     out = []
     for s in raw.sections:
         if s['sh_type'] in (elfraw.SHT['HASH'], elfraw.SHT['GNU_HASH']):
             kind = 'sysv' if s['sh_type'] == elfraw.SHT['HASH'] else 'gnu'
-            out.append(dict(file='synthetic#%d' % k, synth=sd, sec=s['_index'], kind=kind, symtab=s['sh_link'], off=s['sh_offset'],
+            out.append(dict(file='synthetic#%d' % k, synth=sd, synthkind=sk, sec=s['_index'], kind=kind, symtab=s['sh_link'], off=s['sh_offset'],
                             size=s['sh_size'], desc=desc))
     return out
 
@@ -390,7 +392,7 @@ def describe(prop):
 def extra_coverage(prop, tier, agg):
     s = gen_spec(prop, tier, 0, 1)
     return dict(samples=[s], hash_tables=len(_ST['tables']), synthetic_hash_tables=len(_ST['synth']),
-                synthetic_shapes=sorted(set((t['desc']['cls'], t['desc']['little'], t['desc']['bloom_size'], t['desc']['nbuckets']) for t in _ST['synth']))[:40],
+                synthetic_shapes=sorted(set((t['desc']['cls'], t['desc']['little'], t['desc'].get('bloom_size'), t['desc'].get('nbuckets')) for t in _ST['synth']), key=repr)[:40],
                 tables=[(t['file'], t['kind']) for t in _ST['tables']][:80],
                 interleaving_measure='query order x cursor displacement between queries')
 
